@@ -668,3 +668,122 @@ Proof.
   exists (st_of ex_cfg [LStart; LRelNext; LFeed (FMsg (InMsgs false [ex_msg [49%N] [120%N] []])); LRelRead]).
   eexists _, _. split; [apply reach_st_of; vm_compute; discriminate|]. compute. split; reflexivity.
 Qed.
+
+(** * Window boundaries are settled: the fuel of [settle] always suffices *)
+Definition urun (u : unit_) : bool := match u_st u with URunning => true | _ => false end.
+Definition mu (s : state) : nat :=
+  (match rd s with RIdle => length (ch_in s) | _ => 0 end) +
+  (match dp s with DWaitWork => 1 | DBarrierWait _ => 2 | _ => 0 end) +
+  countb urun (units s) + waits s.
+
+Lemma countb_le_length {A} (p : A -> bool) l : countb p l <= length l.
+Proof. induction l as [|x r IH]; cbn; auto. destruct (p x); lia. Qed.
+
+Lemma mu_fuel s : mu s <= settle_fuel s.
+Proof.
+  unfold mu, settle_fuel. pose proof (countb_le_length urun (units s)).
+  destruct (rd s), (dp s); lia.
+Qed.
+
+Lemma settle1_mu s s' os : settle1 s = Some (s', os) -> mu s' < mu s.
+Proof.
+  intros H. apply settle1_inv in H. destruct H; unfold mu; cbn.
+  - rewrite H, H0. cbn. lia.
+  - unfold dequeue. rewrite H. destruct (inq s) as [|[b ms] q] eqn:Q.
+    + destruct (running s); cbn in H0; [discriminate|]. cbn. lia.
+    + cbn. rewrite countb_app. cbn. lia.
+  - rewrite H.
+    pose proof (countb_upd_nth urun u (fun x => x <| u_st := URunning |>) (units s) un H1) as C.
+    cbn in C. destruct (urun un); destruct (rd s); lia.
+  - apply find_unit_some in H as (un' & E' & C & _). rewrite Nat.sub_0_r, H0 in E'. injection E' as <-.
+    apply unit_complete_inv in C as [Su _].
+    pose proof (countb_upd_nth urun i (fun x => x <| u_st := UFinished |>) (units s) un H0) as C.
+    unfold urun in C at 2 4. rewrite Su in C. cbn in C. lia.
+  - apply find_unit_some in H as (un' & E' & C & _). rewrite Nat.sub_0_r, H0 in E'. injection E' as <-.
+    apply unit_complete_inv in C as [Su _].
+    pose proof (countb_upd_nth urun i (fun x => x <| u_st := UAtDeliver |>) (units s) un H0) as C.
+    unfold urun in C at 2 4. rewrite Su in C. cbn in C. lia.
+  - lia.
+  - lia.
+Qed.
+
+Lemma settle_settled : forall fuel s acc, mu s <= fuel -> settle1 (fst (settle fuel s acc)) = None.
+Proof.
+  induction fuel as [|f IH]; intros s acc M; cbn.
+  - destruct (settle1 s) as [[s1 os1]|] eqn:E; auto. apply settle1_mu in E. lia.
+  - destruct (settle1 s) as [[s1 os1]|] eqn:E; auto. apply IH. apply settle1_mu in E. lia.
+Qed.
+
+Theorem reach_settled c s : reach c s -> crash s = None -> settle1 s = None.
+Proof.
+  intros R Cr. destruct R as [|s0 l s' os R H].
+  - reflexivity.
+  - apply step_decompose in H as (_ & s1 & os1 & _ & [(C1 & -> & _)|(_ & Hs)]); [congruence|].
+    pose proof (settle_settled (settle_fuel s1) s1 os1 (mu_fuel s1)) as S. rewrite Hs in S. exact S.
+Qed.
+
+(** * C01.6: at a quiescent point every message whose handlers have all returned has been answered *)
+Lemma in_idxs_where {A} (p : A -> bool) : forall l i k x, nth_error l k = Some x -> p x = true ->
+  In (i + k) (idxs_where p i l).
+Proof.
+  induction l as [|y r IH]; intros i [|k] x E P; cbn in *; try discriminate.
+  - injection E as ->. rewrite P. left. lia.
+  - apply in_or_app. right. replace (i + S k) with (S i + k) by lia. eapply IH; eauto.
+Qed.
+
+Lemma find_unit_none p : forall l i, find_unit p i l = None -> forall k x, nth_error l k = Some x -> p (i + k) x = false.
+Proof.
+  induction l as [|y r IH]; intros i H [|k] x E; cbn in *; try discriminate.
+  - injection E as ->. rewrite Nat.add_0_r. destruct (p i x); [discriminate|auto].
+  - destruct (p i y); [discriminate|]. replace (i + S k) with (S i + k) by lia. eapply IH; eauto.
+Qed.
+
+Lemma settled_no_complete s : settle1 s = None -> find_unit (unit_complete s) 0 (units s) = None.
+Proof.
+  intros H. destruct (find_unit (unit_complete s) 0 (units s)) as [i|] eqn:F; auto. exfalso.
+  pose proof F as F'. apply find_unit_some in F' as (un & E & _). rewrite Nat.sub_0_r in E.
+  unfold settle1 in H. rewrite F, E in H.
+  destruct (rd s); [| destruct (ch_in s) | |].
+  all: repeat match type of H with
+       | match ?d with Some r => _ | None => _ end = None => destruct d; [discriminate|]
+       end.
+  all: try discriminate.
+  all: destruct (is_nil_list (responses (unit_tasks s i))); discriminate.
+Qed.
+
+Theorem c01_quiescent_complete c s : reach c s -> crash s = None -> quiescent s = true ->
+  (forall u un, nth_error (units s) u = Some un -> u_st un = URunning -> all_finished s u = false) /\
+  (forall u un, nth_error (units s) u = Some un -> u_st un <> UAtDeliver).
+Proof.
+  intros R Cr Q. split.
+  - intros u un E Su. pose proof (settled_no_complete s (reach_settled _ _ R Cr)) as F.
+    pose proof (find_unit_none _ _ _ F _ _ E) as P. cbn in P. unfold unit_complete in P. rewrite Su in P. exact P.
+  - intros u un E Su. unfold quiescent, enabled_rel in Q. apply is_nil_list_true in Q.
+    assert (Hin : In (LRelDeliver u) (flat_map (candidates s) all_sites)).
+    { apply in_flat_map. exists SDeliver. split; [cbn; tauto|]. cbn. apply in_map.
+      apply (in_idxs_where at_deliver (units s) 0 u un E). unfold at_deliver. rewrite Su. auto. }
+    assert (Hs : step s (LRelDeliver u) <> None).
+    { unfold step. rewrite Cr. unfold step_raw. rewrite E, Su.
+      destruct (u_chok un); cbn; try match goal with |- context [crash ?x] => destruct (crash x) end; discriminate. }
+    assert (Hf : In (LRelDeliver u) (filter (fun l => match step s l with Some _ => true | None => false end)
+                                       (flat_map (candidates s) all_sites))).
+    { apply filter_In. split; auto. destruct (step s (LRelDeliver u)); congruence. }
+    rewrite Q in Hf. destruct Hf.
+Qed.
+
+Example c01_quiescent_complete_nonvacuous :
+  exists s, reach ex_cfg s /\ crash s = None /\ quiescent s = true /\
+    option_map u_st (nth_error (units s) 0) = Some URunning /\ all_finished s 0 = false.
+Proof.
+  (* the handler of the only call is running, waiting for its gate *)
+  exists (st_of ex_cfg (ex_tr_running ++ [LRelNext])). split; [apply reach_st_of; vm_compute; discriminate|].
+  vm_compute. repeat split; reflexivity.
+Qed.
+
+Example c01_quiescent_answered_nonvacuous :
+  exists s, reach ex_cfg s /\ crash s = None /\ quiescent s = true /\
+    option_map u_st (nth_error (units s) 0) = Some UFinished /\ all_finished s 0 = true.
+Proof.
+  exists (st_of ex_cfg (ex_tr_delivered ++ [LRelNext])). split; [apply reach_st_of; vm_compute; discriminate|].
+  vm_compute. repeat split; reflexivity.
+Qed.
